@@ -64,6 +64,18 @@ Theorem C19_bin_trunc_ref_ok : forall D F k t, k <= length D -> parse_ref D = Ok
 Proof. exact (trunc_gen_ok parse_ref obs_ref_ref). Qed.
 Print Assumptions C19_bin_trunc_ref_ok.
 
+(* state-free headline: an accepted prefix of an accepted input carries a prefix of its tape (any k) *)
+Theorem C19_bin_prefix_tape_ref : forall D F k t, parse_ref D = Ok F -> parse_ref (firstn k D) = Ok t ->
+  exists rest, F = t ++ rest.
+Proof. exact (trunc_gen_plain parse_ref obs_ref_ref). Qed.
+Print Assumptions C19_bin_prefix_tape_ref.
+
+(* the whole input need not be accepted: the tapes of two accepted prefixes extend one another *)
+Theorem C19_bin_prefix_mono_ref : forall D k1 k2 t1 t2, k1 <= k2 ->
+  parse_ref (firstn k1 D) = Ok t1 -> parse_ref (firstn k2 D) = Ok t2 -> exists rest, t2 = t1 ++ rest.
+Proof. exact (trunc_gen_mono parse_ref obs_ref_ref). Qed.
+Print Assumptions C19_bin_prefix_mono_ref.
+
 (* the tape of a top-level key position is never modified afterwards *)
 Theorem C19_bin_top_tape_prefix : forall D s s', runs (init D) s -> top s -> runs s s' ->
   exists rest, s_tape s' = s_tape s ++ rest.
@@ -108,6 +120,11 @@ Theorem C19_bin_trunc_opt_fixed_ok : forall D F k t, k <= length D ->
 Proof. exact (trunc_gen_ok (parse true true) obs_fixed_ref). Qed.
 Print Assumptions C19_bin_trunc_opt_fixed_ok.
 
+Theorem C19_bin_prefix_tape_opt_fixed : forall D F k t, parse true true D = Ok F -> parse true true (firstn k D) = Ok t ->
+  exists rest, F = t ++ rest.
+Proof. exact (trunc_gen_plain (parse true true) obs_fixed_ref). Qed.
+Print Assumptions C19_bin_prefix_tape_opt_fixed.
+
 Theorem C19_bin_cut_not_top_opt_fixed : forall D k s, k <= length D -> runs (init D) s ->
   pos D s <= k <= pos D s + 1 -> ~ top s -> exists e, parse true true (firstn k D) = Err e.
 Proof. exact (trunc_gen_not_top (parse true true) obs_fixed_ref). Qed.
@@ -126,6 +143,11 @@ Theorem C19_bin_trunc_code : fast_path_excludes_i64 = true ->
              parse_opt (firstn k D) = Ok (s_tape s) /\ exists rest, F = s_tape s ++ rest).
 Proof. intro E. exact (trunc_gen parse_opt (obs_code_ref E)). Qed.
 Print Assumptions C19_bin_trunc_code.
+
+Theorem C19_bin_prefix_tape_code : fast_path_excludes_i64 = true ->
+  forall D F k t, parse_opt D = Ok F -> parse_opt (firstn k D) = Ok t -> exists rest, F = t ++ rest.
+Proof. intro E. exact (trunc_gen_plain parse_opt (obs_code_ref E)). Qed.
+Print Assumptions C19_bin_prefix_tape_code.
 
 Theorem C19_bin_cut_not_top_code : fast_path_excludes_i64 = true ->
   forall D k s, k <= length D -> runs (init D) s ->
